@@ -1152,3 +1152,20 @@ Example born_done_example :
   | None => false
   end = true.
 Proof. vm_compute. reflexivity. Qed.
+
+(* A Subscribe call that takes the lock after ANY Close call has returned is silently dropped: no
+   subscriber is registered, no forwarder runs, and its channel is not closed — neither then nor
+   (by [close_frozen]: the state is frozen) ever after. So a channel is either closed by the time
+   Close returns or never: "open at the return, closed a little later" cannot happen. *)
+Theorem subscribe_after_close_dropped : forall vr iv s j s',
+  reachable vr iv s -> any_returned s -> step vr iv s (SubscribeLocked j) = Some s' ->
+  exists b, subs s' = subs s ++ [b] /\ accepted b = false /\ registered b = false /\
+            fwd b = Exited /\ user_closed b = false /\ any_returned s'.
+Proof.
+  intros vr iv s j s' HR Hret Hs.
+  pose proof (returned_closed _ (i_ctl _ _ (inv_reachable _ _ _ HR)) Hret) as Hc.
+  unfold step in Hs. destruct (lock s); [|discriminate].
+  destruct (nth_error (pend_subs s) j) as [[id pc]|]; [|discriminate]. inv_some.
+  exists (mk_sub (closed s) pc (length (fanout s))). unfold mk_sub. rewrite Hc. cbn.
+  repeat split; auto.
+Qed.
